@@ -64,7 +64,7 @@ func runStress(run *report.Run, mode string, dur time.Duration) {
 
 func init() {
 	checks["C12"] = func(run *report.Run) error {
-		run.Rule = "proof obligations about the facts regenerated from /repo (every reachable access to the registration state under its lock, lock order acyclic, nothing unrecognised) decide the property's logic; the search for a failing schedule is a -race build of the real package under mixed load: 4 serving goroutines (ServeHTTP and Dispatch, both routers) × 2 goroutines doing Add/Remove and Route/RemoveRoute on dynamic services, watchdog for deadlock, every response classified (unchanged services must be answered as if nothing changed; changing ones by a state that existed); evaluations = operations executed; distinct = operation kinds"
+		run.Rule = "proof obligations about the facts regenerated from /repo (every reachable access to the registration state under its lock, lock order acyclic, nothing unrecognised) decide the property's logic; the search for a failing schedule is a -race build of the real package under mixed load: 4 serving goroutines (ServeHTTP and Dispatch, both routers) × 2 goroutines doing Add/Remove and Route/RemoveRoute on dynamic services, watchdog for deadlock, every response classified (unchanged services must be answered as if nothing changed; changing ones by a state that existed); the services and dynamic routes that come and go carry path parameters with regular expressions whose text is new every time (in the root path, in a route) and a stable route with an expression is served throughout; a dynamic service with groups of sibling routes (one method and path, told apart by Produces, Consumes or an If condition) that nobody changes while the mutators add further siblings next to them: every untouched sibling must keep answering its own kind of request with its own marker, asked by the serving goroutines during and by the mutator after each addition; evaluations = operations executed; distinct = operation kinds"
 		run.Trusted = []string{"tools/gofacts (go/ast, syntactic, name-resolved calls; unknown constructs fail loudly)", "sync.RWMutex textbook semantics (Lemmas/Lockset.lean)", "race freedom in the Go memory-model sense is inferred from the lock discipline, not proved about compiled code"}
 		run.Assumptions = []string{"entry points of the quantifier: ServeHTTP, Dispatch, OPTIONSFilter, CORS Filter; Add, Remove, Route, RemoveRoute (Handle/Filter registration are outside)", "dynamic routes enabled (the non-dynamic fast path of Routes() is outside the quantifier)"}
 		d := 4 * time.Second
@@ -75,7 +75,7 @@ func init() {
 		return nil
 	}
 	checks["C13"] = func(run *report.Run) error {
-		run.Rule = "sequential histories from the serve generator behind a ledger provider with Spec.c13Holds evaluated on every real request (acquired = released, no anomaly; encoding at container or route level, panics, all entry points); proof obligations about the regenerated facts (acquire = one non-blocking receive, release = one non-blocking send, no len/plain send/receive; Close forgets the compressor; deferred releases) plus the protocol theorems for all capacities, thread counts and interleavings; the search for a failing schedule: the provider API hammered by 8 goroutines at capacity 0, 1, 2, then 8 goroutines × 60 encoded responses / gzip request bodies (some truncated, some panicking) per provider behind a ledger (object handed out twice, double release, never released), every body decoded and compared with its own payload, watchdog for blocked goroutines; -race build"
+		run.Rule = "sequential histories from the serve generator behind a ledger provider with Spec.c13Holds evaluated on every real request (acquired = released, no anomaly; encoding at container or route level, panics, all entry points); proof obligations about the regenerated facts (acquire = one non-blocking receive, release = one non-blocking send, no len/plain send/receive; Close forgets the compressor; deferred releases) plus the protocol theorems for all capacities, thread counts and interleavings; the search for a failing schedule: the provider API hammered by 8 goroutines at capacity 0, 1, 2, then 8 goroutines × 60 encoded responses / gzip request bodies (some truncated, some panicking) per provider behind a ledger (object handed out twice, double release, never released), every body decoded and compared with its own payload, watchdog for blocked goroutines; handlers that stream (Flush between two writes) and handlers that keep a Flush of their response (Response.Flush or the writer's http.Flusher) which is called after that response was closed — right after the request, or inside the next request's handler before / after it wrote: nothing may come out of the closed writer's compressor any more, neither into the response open at that moment nor through the released compressor (the ledger points released writers at a counting sink until they are acquired again); entry through ServeHTTP and Dispatch; -race build"
 		run.Trusted = []string{"tools/gofacts", "channels and sync.Pool by their contract (atomic, non-blocking, may drop)"}
 		d := 3 * time.Second
 		if run.Tier == "thorough" {
